@@ -34,6 +34,12 @@ a pickup measure for rows with negative beat onsets, and ties over barlines; div
 the first row may start later (the array opens with a rest or is an excerpt).  The note array of the rebuilt score must state
 the same beat onsets (as they are: the pickup is representable), durations, division columns and pitches.
 
+Magnitude space (part-magnitude): the small parts again at large tick values - every time and quarter duration of the
+frame multiplied by a factor (480, 10080, 302400 divisions per quarter times the frame's own), and notes / rests placed
+in a late section of the part whose tick values lie around 2^24, around 2^30 and just below 2^31 (the int32 division
+columns end there), alone or together with notes at the start of the part; same clauses, exact reference.
+Zero-valued voice and staff numbers (part-decor, rest-decor): a voice or staff stated as 0 is a stated value.
+
 Nesting space (score-nest): 1-3 parts distributed in every way over a part list with PartGroups nested to a bounded depth
 (groups of one element included); the array of the list, of the Score made of it and of every group at any level is the
 union of the tables of the parts below it (same id readings as the other score spaces).
@@ -53,7 +59,8 @@ RULE = (
     "construction; non-trivial = the array under test has at least one row; edit spaces: frame x content x every "
     "sequence of 1-2 edits of the alphabet, the arrays are taken before the first and after every edit (tie edit spaces: the "
     "same with the alphabet of tie chain edits on a content with tie chains and notes that can be tied); inverse-m*: time "
-    "signature form x pickup length x sorted rows over position / duration alphabets x column kinds x voice column"
+    "signature form x pickup length x sorted rows over position / duration alphabets x column kinds x voice column; "
+    "part-magnitude: frame x 1-2 events x (factor, place of the late section) x which events are late"
 )
 ASSUMPTIONS = [
     "parts are built through the public API (Part, add, set_quarter_duration, tie links); the first time point is 0",
@@ -100,6 +107,12 @@ ASSUMPTIONS = [
     "resized / moved with Part.remove(o, 'start' | 'end') + Part.add(o, start, end); edited chains keep the end of a member at "
     "the start of the next one and one spelled pitch; a note removed from the part is unlinked first; the in-place rescaling "
     "is applied to parts with one quarter duration only (a quarter duration set at a later time cannot be taken back)",
+    "part-magnitude: every time below 2^31 (the division columns are int32); the late section starts a whole number of "
+    "quarters (<= 65536: the beat and quarter columns are float32, onsets one division of the frame apart stay distinct) "
+    "after time 0, after the last measure, signature and division change of the frame: the signatures and the quarter "
+    "duration in force there are the last ones of the frame, the metrical position is compared inside measures only "
+    "(the late section lies outside every measure; the option is still requested there)",
+    "a voice or staff number 0 given to Note / Rest is a stated value (the arrays show 0)",
     "part-merged: the inputs are parts with one quarter duration whose notes and rests all state voice and staff (domain of "
     "merge_parts); the expected table is the union of the input tables with times multiplied to the lcm of the divisions "
     "(what merge_parts documents); voice and staff (renumbered by merge_parts) are not compared",
@@ -385,7 +398,7 @@ def eval_part(case):
     res = CaseResult(states=1, transitions=0, traces=1)
     frame = G.get_frame(case["frame"])
     sp = case["sp"]
-    if sp in ("rest-single", "rest-pairs", "rest-flags"):
+    if sp in ("rest-single", "rest-pairs", "rest-flags", "rest-decor"):
         allev = G.rest_events(frame) + G.note_events(frame)
     else:
         allev = G.note_events(frame)
@@ -425,7 +438,7 @@ def eval_part(case):
         cfgs = part_configs(frame, [case["flags"]], G.NOTE_FLAGS)
         eval_part_arrays(res, part, ref, frame, cfgs, ctx, via="method")
         eval_part_arrays(res, part, ref, frame, cfgs, ctx, via="ensure")
-    elif sp in ("rest-single", "rest-pairs"):
+    elif sp in ("rest-single", "rest-pairs", "rest-decor"):
         cfgs = part_configs(frame, G.basic_configs(G.REST_FLAGS), G.REST_FLAGS)
         eval_rest_arrays(res, part, ref, frame, cfgs, ctx, via="method")
         eval_rest_arrays(res, part, ref, frame, part_configs(frame, [["include_staff", "include_key_signature"]], None), ctx, via="ensure")
@@ -438,6 +451,48 @@ def eval_part(case):
     else:
         raise ValueError(sp)
     res.outcome = describe(spec, ref)
+    res.nontrivial = bool(ref.notes or ref.rests)
+    return res
+
+
+def eval_magnitude(case):
+    """a small part at large tick values: times x factor, the events marked late moved into the late section"""
+    from mc import ir
+
+    res = CaseResult(states=1, transitions=0, traces=1)
+    frame = G.get_frame(case["frame"])
+    events = case["ev"]
+    allev = G.rest_events(frame) + G.note_events(frame)
+    factor, bound = case["mag"]
+    offset = G.mag_offset(frame, factor, bound)
+    late = [k for k, x in enumerate(case["late"]) if x]
+    spec = G.magnify_spec(G.build_spec(frame, events, G.default_deco(events, allev)), factor, offset, late)
+    ctx = "frame=%s ev=%s factor=%d late section=%s (offset %d) late=%s" % (case["frame"], events, factor, bound, offset, case["late"])
+    ok, part = call(res, "part-built", lambda: ir.build_part(spec), ctx)
+    if not ok:
+        res.outcome = "build-failed"
+        return res
+    ref = R.PartRef(spec)
+    single = len(ref.divs) == 1
+
+    def usable(f):
+        return not (f == "include_metrical_position" and not frame["has_measures"]) and not (
+            f == "include_divs_per_quarter" and not single)
+
+    rot = sum(e[1] + 2 * e[2] for e in events) + len(str(factor)) + sum(case["late"])
+    one = G.NOTE_FLAGS[rot % len(G.NOTE_FLAGS)]
+    if not usable(one):
+        one = "include_time_signature"
+    if any(e[0] != "r" for e in events):
+        eval_part_arrays(res, part, ref, frame, [[], [f for f in G.NOTE_FLAGS if usable(f)]], ctx, via="method")
+        eval_part_arrays(res, part, ref, frame, [[one]], ctx, via=("ensure", "function", "method")[rot % 3])
+    if any(e[0] == "r" for e in events):
+        eval_rest_arrays(res, part, ref, frame, [[], [f for f in G.REST_FLAGS if usable(f)]], ctx, via="method")
+        eval_rest_arrays(res, part, ref, frame, [[one if one in G.REST_FLAGS else "include_staff"]], ctx,
+                         via=("ensure", "method")[rot % 2])
+    top = max(o[x] for o in spec["objs"] for x in ("s", "e") if o.get(x) is not None)
+    res.outcome = "mag factor=%d late=%s/%s top=2^%d %s" % (factor, bound, "".join(str(x) for x in case["late"]),
+                                                         top.bit_length() - 1, describe(spec, ref))
     res.nontrivial = bool(ref.notes or ref.rests)
     return res
 
@@ -939,6 +994,8 @@ def eval_case(case):
         return eval_nest(case)
     if sp == "part-merged":
         return eval_merged(case)
+    if sp == "part-magnitude":
+        return eval_magnitude(case)
     if sp.startswith("score"):
         return eval_score(case)
     if sp == "rest-list":
@@ -1010,8 +1067,8 @@ def gen_part_decor():
         [["t", 0, 2], ["n", 1, 3], ["g", 1, 1]],  # chain over the pickup barline + overlapping
     ]
     spell = [["C", 4, None], ["C", 4, 0], ["C", 4, 1], ["D", 4, -1], ["B", 3, 2], ["D", 4, -2]]
-    voices = [1, 2, None, 5]
-    staves = [1, 2, None]
+    voices = [0, 1, 2, None, 5]
+    staves = [0, 1, 2, None]
     for sk in skels:
         for vs in product(voices, repeat=3):
             yield dict(sp="part-decor", frame=fk, ev=sk, deco=[dict(p=k, v=v, st=1, gt="grace") for k, v in enumerate(vs)])
@@ -1019,6 +1076,43 @@ def gen_part_decor():
             yield dict(sp="part-decor", frame=fk, ev=sk, deco=[dict(p=2 - k, v=1, st=s, gt="acciaccatura") for k, s in enumerate(ss)])
         for ps in product(spell, repeat=3):
             yield dict(sp="part-decor", frame=fk, ev=sk, deco=[dict(p=list(p), v=None if k == 1 else 1, st=None, gt="appoggiatura") for k, p in enumerate(ps)])
+
+
+def gen_rest_decor():
+    """voice and staff numbers of rests (and of a note beside them), zero included"""
+    fk = DECOR_FRAME
+    skels = [
+        [["r", 2, 3], ["r", 2, 4], ["n", 2, 3]],  # two rests and a note at one time
+        [["r", 0, 1], ["r", 3, 4], ["r", 1, 3]],  # rests in a row, not in time order
+    ]
+    vals = [0, 1, 2, None]
+    for sk in skels:
+        for vs in product(vals, repeat=3):
+            yield dict(sp="rest-decor", frame=fk, ev=sk, deco=[dict(p=k, v=v, st=1) for k, v in enumerate(vs)])
+        for ss in product(vals, repeat=3):
+            yield dict(sp="rest-decor", frame=fk, ev=sk, deco=[dict(p=k, v=2 if k else None, st=x) for k, x in enumerate(ss)])
+
+
+B_MAG = 16
+
+
+def gen_part_magnitude(block=None):
+    """single events complete; ordered pairs (note-like x note-like, rest x rest) in the hash block `block` (None: all)"""
+    for fk in G.MAG_FRAMES:
+        fr = G.get_frame(fk)
+        notes, rests = G.mag_events(fr)
+        levels = G.mag_levels(fr)
+        for mag in levels:
+            for e in notes + rests:
+                yield dict(sp="part-magnitude", frame=fk, ev=[e], late=[1 if mag[1] else 0], mag=mag)
+        for group in (notes, rests):
+            for a in group:
+                for b in group:
+                    for mag in levels:
+                        for late in ([[0, 1], [1, 1]] if mag[1] else [[0, 0]]):
+                            c = dict(sp="part-magnitude", frame=fk, ev=[a, b], late=late, mag=mag)
+                            if block is None or block_of(c, B_MAG) == block:
+                                yield c
 
 
 def gen_part_musical():
@@ -1349,8 +1443,9 @@ def spaces(tier, seed):
         out.append(Space("part-pairs", lambda: gen_part_pairs(None), True, "all ordered pairs of events on every frame"))
         out.append(Space("part-triples", lambda: gen_part_triples(None), True, "all ordered triples with a shared onset on 3 frames"))
     out.append(Space("part-decor", gen_part_decor, True,
-                     "3 skeletons (chord, grace+main+later, chain over the pickup barline + overlap) x all voice^3 (4 values), "
-                     "staff^3 (3 values), spelling^3 (6 spellings) assignments"))
+                     "3 skeletons (chord, grace+main+later, chain over the pickup barline + overlap) x all voice^3 (5 values), "
+                     "staff^3 (4 values), spelling^3 (6 spellings) assignments; voices {0, 1, 2, none, 5}, staves {0, 1, 2, none}: "
+                     "a number 0 is a stated value"))
     out.append(Space("part-musical", gen_part_musical, True,
                      "musical beats enabled (defaults, 6/8 in 3, 3/4 and 2/4 in 1) on the 3/4, 2/4-6/8 and 6/8-pickup frames with one key "
                      "signature x every division plan x every single event (+ one triple)"))
@@ -1363,6 +1458,26 @@ def spaces(tier, seed):
     else:
         out.append(Space("rest-pairs", lambda: gen_rest_pairs(None), True, "ordered pairs rest x (rest | one-cell note) on those frames"))
     out.append(Space("rest-flags", gen_rest_flags, True, "all 2^6 subsets of the rest options on 5 representative parts"))
+    out.append(Space("rest-decor", gen_rest_decor, True,
+                     "2 skeletons (two rests and a note at one time; three rests in a row, not added in time order) x all voice^3 and "
+                     "staff^3 assignments over {0, 1, 2, none}: a number 0 is a stated value; rest array with 8 option sets + the "
+                     "note array of the same part"))
+    mgb = ("the small parts at large tick values: %d frames %s; every time and quarter duration of the frame x factor; a late "
+           "section = the frame's grid moved a whole number of quarters later, placed so that 2^24 / 2^30 lies within a quarter "
+           "after its middle (grid points on either side) or so that it ends within a quarter before 2^31 - 1; levels (factor, "
+           "late section): {480, 10080, 302400} x none, and %s x {2^24, 2^30, max} wherever the late section starts at most %d "
+           "quarters after time 0 and not before the end of the frame (6-7 of the 12 per frame); events: one-cell note on every "
+           "cell, two-cell tie chain from every grid point, grace note on every grid point but the last, one note over the whole "
+           "grid, one-cell rest on every cell; single events (in the late section when there is one) and ordered pairs "
+           "note-like x note-like, rest x rest with {second, both} events late (none without late section); note arrays: no "
+           "option, all options, one rotating option through a rotating route; rest arrays likewise" % (
+               len(G.MAG_FRAMES), G.MAG_FRAMES, G.MAG_FACTORS, G.MAG_MAX_QUARTERS))
+    if tier == "quick":
+        b = seed % B_MAG
+        out.append(Space("part-magnitude", lambda b=b: gen_part_magnitude(b), True,
+                         mgb + "; single events complete, pairs: block %d of %d (hash of the case)" % (b, B_MAG)))
+    else:
+        out.append(Space("part-magnitude", lambda: gen_part_magnitude(None), True, mgb + "; complete"))
     eb = ("on one Part object: query (note and rest array with all options + one rotating single option through "
           "note_array_from_part / ensure_notearray / ensure_rest_array), edit, same queries again, each compared with the "
           "table of the score as it is then; contents {dense: a one-cell note and rest on every grid cell, sparse: tie chain + "
